@@ -239,9 +239,18 @@ def sweep(ctx, max_calls):
         must = [c for c in calls if c[1].endswith('_go')]          # conversions to grow-only containers are always exercised (their results are grown below)
         calls = must + ctx.rng.sample([c for c in calls if c not in must], max(0, max_calls - len(must)))
     table_cache = arg_table(fx, None)
+    base_snapshot = {k: deep(v) for k, v in fx.items()}
+    fx_observed = fx
     for tname, attr in calls:
+        # Containers cache lazily (a hierarchy materialises its label table on first use).  Every call on a hierarchical fixture, and a
+        # fifth of the others, is therefore made on a FRESH, never observed twin; what is observable through it afterwards must be what
+        # the observed twin showed before.
+        fresh = tname in ('frame_ih', 'ih') or ctx.rng.random() < 0.2
+        fx = fixtures(ctx.rng) if fresh else fx_observed
+        if fresh:
+            ctx.count('V_calls_on_unobserved_twin')
         obj = fx[tname]
-        before = {k: deep(v) for k, v in fx.items()}
+        before = base_snapshot if fresh else {k: deep(v) for k, v in fx.items()}
         results = []
         outcome = 'ok'
         try:
